@@ -6,6 +6,7 @@ use std::panic::{AssertUnwindSafe, catch_unwind};
 mod util;
 mod alloc;
 mod codec;
+mod control;
 mod ord;
 mod termio;
 mod frag;
@@ -22,6 +23,7 @@ fn main() {
     let f: fn(&str) -> String = match domain.as_str() {
         "frag" => frag::run_case,
         "codec" => codec::run_case,
+        "control" => control::run_case,
         "ord" => ord::run_case,
         "framing" => framing::run_case,
         "pid" => pid::run_case,
